@@ -5,6 +5,7 @@ import (
 	"errors"
 	"fmt"
 	"os"
+	"runtime"
 	"runtime/debug"
 	"strings"
 	"sync"
@@ -84,6 +85,26 @@ func Bubble(t *testing.T, f func()) (panicVal any) {
 		finished = true
 	}()
 	return <-done
+}
+
+// BubbleStalled is returned by BubbleWall when the bubble did not finish within the wall-clock budget.
+const BubbleStalled = "sim: bubble stalled (wall-clock budget exceeded)"
+
+// BubbleWall is Bubble with a wall-clock budget. A bubble whose fake clock cannot advance (some goroutine
+// waits for a sync.Mutex - not a durable block - whose holder waits for simulated time) never finishes;
+// after the budget its goroutines are abandoned and a dump of all goroutines is returned for the caller
+// to tell a simulator limitation from a deadlock of the code under test.
+func BubbleWall(t *testing.T, f func(), wall time.Duration) (panicVal any, dump string) {
+	done := make(chan any, 1)
+	go func() { done <- Bubble(t, f) }()
+	select {
+	case v := <-done:
+		return v, ""
+	case <-time.After(wall):
+		buf := make([]byte, 1<<22)
+		n := runtime.Stack(buf, true)
+		return BubbleStalled, string(buf[:n])
+	}
 }
 
 func trimStackN(st string, n int) string {
